@@ -285,3 +285,45 @@ def register(reg):
       "objects, bytes.decode, moment.dt_to_ts / zone name of each datetime, moment.ts_to_dt on decode, moment.ts_to_date for "
       "non-integral stamps; row ids are ints; 3 known findings (known_findings.json).",
       "Lean 4 mutual structural induction over the value universe + differential correspondence + direct oracle + engine-level search")
+
+  reg("C27", "proof",
+      "The id-filling loop of useractions.doBulkAddOrReplace, Table.RowIDs (max / membership), the existence assertion of "
+      "DocActions.BulkAddRecord, ReplaceTableData and Engine.add_records' effect on the row set are modelled line by line "
+      "(GristModel/RowIds.lean: fillIds, addRequest, replaceRequest). Proved for ALL tables and ALL id lists: fill_ids_spec "
+      "(one id per entry; explicit entries returned as given; every None/negative entry gets an id above every existing row and "
+      "above every id returned earlier in the request), too_high_rejected + fill_error_iff (an id > 1,000,000 - and nothing else - "
+      "raises in the loop), existing_rejected (an explicit id of an existing row rejects the request), fill_ids_nodup_iff (the "
+      "returned ids are pairwise distinct EXACTLY when the explicit ids are pairwise distinct and none equals an automatic id handed "
+      "out earlier in the request), fill_ids_distinct_partial / add_exact_partial (under those hypotheses + explicit ids positive: ids "
+      "distinct, positive, disjoint from the old rows, rows afterwards = old rows + returned ids, exactly len(ids) new rows). The full "
+      "statement is FALSE of the code; its negations are proved with witnesses and replayed on the engine every run: "
+      "repeated_explicit_accepted ([5,5]), late_clash_accepted ([None,3,None] when the next id is 3 -> [3,3,5]), zero_id_ghost ([0]). "
+      "Differentially validated only: that the model equals the engine (returned ids, rows afterwards, error class) on every explored "
+      "request; that rejected requests leave doc.snapshot() unchanged (rollback is C04's subject); cell data of the new rows.",
+      "Exhaustive scope: id lists of length <= 3 over {None,-1,-2,0,1,2,3,5,1000001} x table states {[],[1],[1,2],[2,5]} x "
+      "{AddRecord, BulkAddRecord, ReplaceTableData} (thorough: three ways of building each state, incl. an id column longer than "
+      "the largest row), evolving random histories, the 1,000,000 boundary. Row ids are ints or None. Three recorded findings "
+      "(known_findings.json). Observation: automatic ids are not limited (after row 1,000,000 the next automatic id is 1,000,001); "
+      "after an explicit id below the maximum the loop still skips one id (next = max(next, id) + 1).",
+      "Lean 4 theorems by induction over the filling loop + differential correspondence through a live engine + direct oracle")
+
+  reg("C26", "proof",
+      "ActionSummary.update_new_rows_map / translate_new_row_ids, ReferenceColumn / ReferenceListColumn.prepare_new_values with "
+      "_reject_unresolved_temp_ids, and the first lines of doBulkUpdateRecord / doBulkRemoveRecord are modelled line by line "
+      "(GristModel/RowIds.lean: updateNewRowsMap, translate, prepareRef, prepareRefList, runStep). Proved for ALL maps, requests and "
+      "values: translate_after_update (after an add a negative id maps to the id filled in at its LAST position in the request, "
+      "overriding earlier adds; ids the request does not mention keep their mapping), translate_identity_on_positive (only negative "
+      "ids are ever keys), temp_id_is_allocated_row (the temp id translates to a row that exists after the add and did not before), "
+      "update_by_temp_id / remove_by_temp_id (Update passes the existence assertion on that row; Remove removes exactly that row), "
+      "ref_values_translated (accepted Ref/RefList values = the given ones with every negative id replaced by the row recorded for "
+      "it, everything else unchanged, nothing negative left), unknown_temp_rejected + prepare_ref_ok_iff (a negative id without "
+      "mapping anywhere in the values raises ValueError, and that is the only reason for rejection). Differentially validated only: "
+      "that the model equals the engine on whole bundles (retValues, error class, final rows and reference cells predicted from the "
+      "model's translated ids); that a rejected bundle leaves doc.snapshot() unchanged (rollback is C04's subject); the per-table "
+      "keying of the maps and their lifetime (one bundle); the removal clean-up of references used by the reference interpreter.",
+      "A temp id used several times stands for the row of its LATEST use (documented override). 'Negative reference id' = Ref/RefList "
+      "value; Update by an unknown temp id is rejected (AssertionError), Remove by an unknown temp id is passed through and removes "
+      "nothing (stored action then names the negative id - recorded as an observation, not a violation). Tables T(a,r:Ref:T,"
+      "rl:RefList:T,o:Ref:U), U(b,t:Ref:T,tl:RefList:T); no formulas / two-way references; explicit ids in bundles are fresh "
+      "(collisions are C27). Floats / strings in reference columns are alt-text, never ids (checked once per run).",
+      "Lean 4 theorems by induction over the request / value lists + differential correspondence through a live engine + naive reference interpreter as direct oracle")
